@@ -722,6 +722,7 @@ type Obs struct {
 	TrailersOnly bool
 	WebErr       string   // framing problem of a gRPC-web body
 	WebKeys      []string // keys of the gRPC-web trailer frame as sent ("?malformed" for a line without colon)
+	SeqDiff      string   // the response differs from the one the same request gets on a fresh mux
 	Stuck        string   // a watchdog fired while the request was inside larking: goroutine excerpt
 	// client-visible metadata, lower-cased keys; -bin values still encoded
 	// for raw clients, decoded for grpc-go (BinDecoded)
@@ -934,7 +935,9 @@ func (e *Env) doHTTPShape(c *Case, id string, sock bool) *Obs {
 	case "upload":
 		path, body = "/v1/uploadu/"+id, []byte("\x89PNG\r\n\x1a\n not really")
 	case "post":
-		body = bodyFor(c.ReqCT, id)
+		if body = bodyFor(c.ReqCT, id); body == nil {
+			body, _ = protojson.Marshal(newChunk(id, 0))
+		}
 	case "404":
 		method, path = "GET", "/v1/no-such-route/"+id
 	case "405":
